@@ -364,6 +364,14 @@ func c12hpCheckInit(w *c12hpWorld, c *c12hpInitCase, o *c12hpInitObs) (vs []c12h
 	if o.DirectAtStart && nStreams > 0 {
 		vs = append(vs, c12hpViol{"coordination-despite-direct-connection", fmt.Sprintf("a direct connection existed, yet %d coordination stream(s) were opened", nStreams)})
 	}
+	// ... and a coordination stream never rides a direct connection, also not the one of a RETRY: a direct connection that
+	// appeared while the previous attempt failed (the remote's punch landing a moment late) ends the exercise
+	for i, cl := range o.Calls {
+		if cl.Kind == "newstream" && strings.HasPrefix(cl.ConnKind, "direct") {
+			vs = append(vs, c12hpViol{"coordination-stream-over-direct-connection", fmt.Sprintf("call #%d: the coordination stream was opened over a %s connection", i, cl.ConnKind)})
+			break
+		}
+	}
 	if c.Notify != 0 {
 		return vs
 	}
@@ -694,5 +702,5 @@ func c12hpInitiator(t *testing.T) {
 	})
 	r.Distinct = int64(len(distinct))
 	r.Note("cases enumerated (all shards): %d; outcome classes in this shard: %d", idx+1, len(classes))
-	r.Note("observation, not judged: in %d executions of this shard (late-inbound-direct sub-space) the retry opened its coordination stream after an inbound direct connection had appeared during the failed attempt, so the stream rode the direct connection (directConnect does not re-check getDirectConnection between attempts); the flags on the stream were still allow-limited + no-dial", overDirect)
+	r.Note("executions of this shard in which a coordination stream rode a direct connection (a violation since the repair of DESIGN.md section 9, row 37): %d", overDirect)
 }
